@@ -1,9 +1,10 @@
 SPECIFICATION Spec
 CONSTANTS
   Accts = {1, 2}
-  MaxDepth = 3
-  MaxFrames = 4
+  MaxDepth = 2
+  MaxFrames = 2
   MaxTx = 2
+  MaxMuts = 1
   AsCoded = TRUE
 INVARIANTS TypeOK FailRestores StaticPure TxClean ReceiptOwn Conservation
 VIEW NoHist
